@@ -241,6 +241,14 @@ def shared_state_obligations(ctx, rep, rule, eff, funcs, sequential=False):
                         if isinstance(base, ast.Name) and (base.id in globs or (base.id in f.module.globals and base.id not in _locals(f))):
                             rep.fail(rule, f"{f.qualname}: {norm(t)[:50]} = ...", ctx.where(f, n),
                                      f"element write into module-level {base.id} while serving a request", key=f"{rule}|{f.qualname}|elt|{base.id}")
+                        db_ = dotted(base) or ""
+                        if db_.startswith(("self.", "cls.")) and db_.count(".") == 1 and f.cls is not None:
+                            a_ = prog.class_attr(f.cls, db_.split(".")[1])
+                            if isinstance(a_, (ast.List, ast.Dict, ast.Set)) and not _assigned_in_instance(prog, f.cls, db_.split(".")[1]) \
+                                    and not (sequential and in_lazy_init(f, n, globs)):
+                                rep.fail(rule, f"{f.qualname}: {norm(t)[:50]} = ...", ctx.where(f, n),
+                                         f"element write into the class-level table {f.cls.name}.{db_.split('.')[1]}, which every object of the class (every "
+                                         "request) shares", key=f"{rule}|{f.qualname}|clselt|{db_}")
                     if isinstance(t, ast.Attribute) and (dotted(t.value) or "") in ("self.server", "server", "self.protocol.server", "protocol.server"):
                         rep.fail(rule, f"{f.qualname}: {norm(t)} = ...", ctx.where(f, n),
                                  "writes an attribute of the server object, which every connection shares",
@@ -274,6 +282,10 @@ def check(ctx, rep):
     rep.rule("R14b", "protocol/handler objects are per request; header cache is per connection", floor=3)
     rep.rule("R14d", "socketserver hooks the worker bookkeeping lives in (service_actions, handle_timeout, server_close, ...) are not overridden "
              "without handing on to the inherited implementation", floor=1)
+    rep.rule("R14e", "= R11a: a client that reads a cache while another client's worker is writing it sees a cut-off file - every load is guarded "
+             "against each way such a file fails, and regenerates", floor=2)
+    from .c11 import loader_guard_obligations
+    loader_guard_obligations(ctx, rep, eff, "R14e")
     rep.rule("R14c", "fork child always _exit()s; parent records child, closes, returns; thread worker always shuts down", floor=2)
     funcs = request_functions(ctx, eff)
     rep.analysed(*sorted(f.qualname for f in funcs)[:150])
